@@ -1372,6 +1372,7 @@ func (w *envelopingWriter) Write(data []byte) (n int, err error) {
 		}
 		if w.writingEnvelope {
 			if err := w.handleEnvelopeWritten(); err != nil {
+				w.err = err
 				return written, err
 			}
 			continue
@@ -1379,6 +1380,7 @@ func (w *envelopingWriter) Write(data []byte) (n int, err error) {
 
 		if w.currentIsTrailer {
 			if err := w.handleTrailer(); err != nil {
+				w.err = err
 				return written, err
 			}
 			if len(data) == 0 {
